@@ -247,6 +247,10 @@ func (h *rtHist) target(rel string) string {
 	if rtDepth(rel) >= 2 && r.chance(1, 3) {
 		t = "../" + r.pick(rtDiffNames)
 	}
+	if r.chance(1, 10) {
+		// a target longer than one header field, than 255 and than 256 bytes
+		t = "./" + strings.Repeat("long-target-", []int{9, 21, 22, 40, 90}[r.intn(5)]) + "x"
+	}
 	if !rtStaysInside(rel, t) {
 		return "x"
 	}
